@@ -675,6 +675,7 @@ def check_wrapper_collision(ctx, name, shape, transport="grpc+rest"):
 
 DEP, AUX = "acme.dep.v1", "acme.aux.v1"
 PPDEPS_SCENARIOS = ("own-module", "two-deps", "reserved-module", "field-name", "plus-and-pb2", "dep-request")
+PPDEPS_WORD_SCENARIOS = ("reserved-module", "keyword-dep-file", "keyword-pb2-file")     # parameterised by the file's base name
 
 
 def build_ppdeps_api(scenario, word="type"):
@@ -686,15 +687,31 @@ def build_ppdeps_api(scenario, word="type"):
       field-name      that of a flattened parameter of the method (`mark.proto`, parameter `mark`),
       plus-and-pb2    that of a plain `_pb2` dependency (`acme.aux.v1` is NOT declared proto-plus),
       dep-request     (as own-module, and) the dependency's type is the request and response type of an rpc.
+    The dependency's FILE is named by a keyword or a client control parameter (`import.proto`, `request.proto`: its module is `<word>_`):
+      keyword-dep-file the proto-plus dependency's file (its own library ships `types/<word>_.py`); when the word is a reserved word as a
+                       field too, the API also has a field of that name and of the dependency's type, flattened (parameter `<word>_`),
+      keyword-pb2-file the file of the plain `_pb2` dependency `acme.aux.v1` (protoc ships `<word>_pb2.py`).
+      dep-subpackage   the referenced types live in `acme.dep.v1.sub`, a sub-package of the versioned dependency package (no alias needed).
     -> dict(dep_sets=[(package, [files])], api=[files], pb2=[files], plus=[packages], all=[files])"""
-    base = {"reserved-module": word, "field-name": "mark"}.get(scenario, "common")
+    base = {"reserved-module": word, "field-name": "mark", "keyword-dep-file": word}.get(scenario, "common")
+    res_, _ = tables()
     d = apigen.File(f"acme/dep/v1/{base}.proto", DEP)
     kind = d.enum("Kind", ["KIND_UNSPECIFIED", "HARD", "SOFT"])
     mark = d.msg("Mark"); mark.field("class", "string", 1); mark.field("name", "string", 2); mark.field("kind", "enum", 3, type_name=kind)
-    ds = d.service("Marks", host="dep.example.com"); ds.method("GetMark", mark, mark)
     deps, own, pb2 = [(DEP, [d])], [], []
-    if scenario in ("two-deps", "plus-and-pb2"):
-        a = apigen.File("acme/aux/v1/common.proto", AUX)
+    plus_extra = []
+    if scenario == "dep-subpackage":
+        # the referenced types live in a SUB-package of the versioned dependency package; its library is `acme/dep_v1/sub/types/common.py`
+        d = apigen.File("acme/dep/v1/sub/common.proto", DEP + ".sub")
+        kind = d.enum("Kind", ["KIND_UNSPECIFIED", "HARD", "SOFT"])
+        mark = d.msg("Mark"); mark.field("class", "string", 1); mark.field("name", "string", 2); mark.field("kind", "enum", 3, type_name=kind)
+        droot = apigen.File("acme/dep/v1/marks.proto", DEP).dep(d.name)
+        ds = droot.service("Marks", host="dep.example.com"); ds.method("GetMark", mark, mark)
+        deps = [(DEP, [d, droot])]; plus_extra = [DEP + ".sub"]
+    else:
+        ds = d.service("Marks", host="dep.example.com"); ds.method("GetMark", mark, mark)
+    if scenario in ("two-deps", "plus-and-pb2", "keyword-pb2-file"):
+        a = apigen.File("acme/aux/v1/%s.proto" % (word if scenario == "keyword-pb2-file" else "common"), AUX)
         note = a.msg("Note"); note.field("import", "string", 1); note.field("text", "string", 2)
         if scenario == "two-deps":
             as_ = a.service("Notes", host="aux.example.com"); as_.method("GetNote", note, note)
@@ -715,6 +732,8 @@ def build_ppdeps_api(scenario, word="type"):
         fields.append(("tag", "message", tag))
     if note:
         fields.append(("note", "message", note))
+    if scenario == "keyword-dep-file" and word in res_:
+        fields.append((word, "message", mark))
     book = f.msg("Book"); rq = f.msg("GetBookRequest")
     for m in (book, rq):
         for i, (n, t, tn) in enumerate(fields):
@@ -725,7 +744,8 @@ def build_ppdeps_api(scenario, word="type"):
     s.method("CreateBook", rq, book, http=("post", "/v1/books"), body="mark", sigs=["name,mark"])
     if scenario == "dep-request":
         s.method("PutMark", mark, mark, http=("post", "/v1/marks"), body="*")
-    return dict(dep_sets=deps, api=own + [f], pb2=pb2, plus=[p for p, _ in deps], all=[d] + ([a] if a else []) + own + [f], base=base)
+    alldeps = [fl for _, fls in deps for fl in fls]
+    return dict(dep_sets=deps, api=own + [f], pb2=pb2, plus=[p for p, _ in deps] + plus_extra, all=alldeps + pb2 + own + [f], base=base)
 
 
 def check_ppdeps(ctx, scenario, word="type"):
@@ -735,7 +755,7 @@ def check_ppdeps(ctx, scenario, word="type"):
     import base64
     spec = build_ppdeps_api(scenario, word)
     payload = {"api": "proto-plus-deps", "scenario": scenario, "word": word}
-    label = f"proto-plus-deps/{scenario}" + (f"/{word}" if scenario == "reserved-module" else "")
+    label = f"proto-plus-deps/{scenario}" + (f"/{word}" if scenario in PPDEPS_WORD_SCENARIOS else "")
     ctx.count("position", f"proto-plus dependency module needing an alias: {scenario}")
     root, packages = None, []
     try:
@@ -781,6 +801,17 @@ def check_ppdeps(ctx, scenario, word="type"):
             if a_["bound"] != bound or a_["reference"] != ref:
                 ctx.disagree("T2:c12.python-import", f"{label}: {k[0]} module {k[2]}.{k[1]} (alias {alias!r}, method {mname}): import binds {bound!r}, references say "
                                                      f"{ref!r}; model: binds {a_['bound']!r}, references {a_['reference']!r}", payload)
+        # T2: the module imported for each dependency file (own renaming of EVERY file descriptor, `_pb2` appended for plain dependencies)
+        depfiles = [(fl, True) for _, fls in spec["dep_sets"] for fl in fls] + [(fl, False) for fl in spec["pb2"]]
+        dm = ctx.driver.ask([{"op": "c12.depmodule", "name": fl.name.rsplit("/", 1)[1][:-len(".proto")], "plus": plus} for fl, plus in depfiles])
+        for (fl, plus), a_ in zip(depfiles, dm):
+            pkg_ = fl.pb.package
+            got = sorted({t.ident.python_import.module for m in ms for t in m.ref_types
+                          if t.ident.api_naming and ".".join(t.ident.package) == pkg_})
+            ctx.traces += 1
+            if got and got != [a_["imported"]]:
+                ctx.disagree("T2:c12.dependency-module", f"{label}: types of {fl.name} are imported from module(s) {got}, model {a_['imported']!r} "
+                                                         f"(the dependency ships {a_['shipped']!r})", payload)
         full = f"{PKG}.GetBookRequest"
         val = {"name": "books/b1", "mark": {"class": "c1", "name": "n2", "kind": "HARD"}, "kind": "SOFT"}
         fieldnames = [x.name for x in codec.pool.FindMessageTypeByName(full).fields]
@@ -788,6 +819,8 @@ def check_ppdeps(ctx, scenario, word="type"):
             val["tag"] = {"type": "t1", "name": "n1"}
         if "note" in fieldnames:
             val["note"] = {"import": "i1", "text": "x"}
+        if scenario == "keyword-dep-file" and word in fieldnames:
+            val[word] = {"class": "c3", "kind": "SOFT"}
         reply = dict(val, marks=[{"class": "c2"}, {"name": "n3", "kind": "SOFT"}])
         enc = lambda fn, dct: base64.b64encode(codec.encode(fn, dct)).decode()
         jsonify = lambda fn, dct: json.dumps(__import__("google.protobuf.json_format", fromlist=["x"]).MessageToDict(
@@ -800,7 +833,7 @@ def check_ppdeps(ctx, scenario, word="type"):
             mode = "kwargs" if flat else "request-instance"
             calls += [
                 {"tag": f"dependency-typed fields ({how})", "method": "get_book", "mode": mode, "py_request": T("GetBook"),
-                 "kwargs": [[n, n] for n in fieldnames], "expect": (full, val), "path": P("GetBook"), "http": ("/v1/{name=books/*}", None),
+                 "kwargs": [[attr(n), attr(n)] for n in fieldnames], "expect": (full, val), "path": P("GetBook"), "http": ("/v1/{name=books/*}", None),
                  "reply": (f"{PKG}.Book", reply)},
                 {"tag": f"dependency-typed body ({how})", "method": "create_book", "mode": mode, "py_request": T("CreateBook"),
                  "kwargs": [["name", "name"], ["mark", "mark"]], "expect": (full, {"name": val["name"], "mark": val["mark"]}), "path": P("CreateBook"),
@@ -829,7 +862,11 @@ def check_ppdeps(ctx, scenario, word="type"):
             return
     imp = out[n]
     if "child_error" in imp or imp.get("errors"):
-        ctx.fail("proto-plus-deps:import", f"{label}: library does not import: {str(imp.get('errors') or imp)[:300]}", payload)
+        # trigger of the known finding, decided from the input: a referenced proto-plus dependency package whose version segment is not its last
+        subv = any(re.match(r"^v\d[^/]*$", seg) for pk_ in spec["plus"] for seg in pk_.split(".")[:-1])
+        key = ("pb2-dependency-file-named-by-invalid-module-name:import" if scenario == "keyword-pb2-file"
+               else "proto-plus-dep:sub-package-of-versioned" if subv and "ModuleNotFoundError" in str(imp.get("errors")) else "proto-plus-deps:import")
+        ctx.fail(key, f"{label}: library does not import: {str(imp.get('errors') or imp)[:300]}", payload)
         return
     for kind, sess in zip(("sync", "asyncio", "rest"), out[n + 1:]):
         if "calls" not in sess:
@@ -859,6 +896,66 @@ def check_ppdeps(ctx, scenario, word="type"):
             rfn, rwant = c["reply"]
             if not (isinstance(ok, dict) and ok.get("type") == rfn and codec.decode(rfn, ok["b64"]) == codec.normal(rfn, rwant)):
                 ctx.fail("proto-plus-deps:result", f"{label}, {c['tag']} ({kind}): the caller got {str(ok)[:260]}, expected {rfn} {rwant}", pl)
+
+
+def check_rpc_and_file(ctx, w, order=("kw", "other")):
+    """an RPC named by a keyword whose types live in the file named by the SAME keyword (`rpc Import` in `import.proto`), next to another
+    RPC with types of that file: the client method / transport property `import_` and the types module `import_` share a name, so the
+    module needs its alias in the service modules. (Until round 9 excluded as a combination of two positions, DESIGN §16; the trigger —
+    snake-cased RPC name + `_` equal to the renamed module of a file the service's transports refer to — is decided here from the input;
+    on /repo 23a0705 it is the known finding `rpc-name-equals-renamed-types-module:import`.)"""
+    from gapic.utils import to_snake_case
+    f = apigen.File(f"acme/lib/v1/{w}.proto", PKG)
+    kind = f.enum("Kind", ["KIND_UNSPECIFIED", "A", "B"])
+    a = f.msg(cap(w) + "Request"); a.field("name", "string", 1); a.field("kind", "enum", 2, type_name=kind)
+    b = f.msg("OtherRequest"); b.field("name", "string", 1); b.field("kind", "enum", 2, type_name=kind)
+    thing = f.msg("Thing"); thing.field("name", "string", 1); thing.field("kind", "enum", 2, type_name=kind)
+    s = f.service("Library")
+    for which in order:
+        if which == "kw":
+            s.method(cap(w), a, thing, http=("get", "/v1/{name=things/*}"), sigs=["name"])
+        else:
+            s.method("Other", b, thing, http=("get", "/v1/{name=others/*}"), sigs=["name,kind"])
+    payload = {"api": "rpc-and-file", "word": w, "order": list(order)}
+    trigger = to_snake_case(cap(w)) + "_" == w + "_" and w in keyword.kwlist
+    K = (lambda k: "rpc-name-equals-renamed-types-module:import") if trigger else (lambda k: k)
+    label = f"rpc {cap(w)} with types in {w}.proto ({'first' if order[0] == 'kw' else 'after another rpc'})"
+    ctx.count("position", "rpc name + proto file name by the same keyword")
+    req = apigen.request([f], "transport=grpc+rest,autogen-snippets=false")
+    res, err = genrun.try_generate(req)
+    if err:
+        ctx.fail(f"rpc-and-file:generation:{err[0]}", f"{label}: generator raised {err[0]}: {err[1]}", payload)
+        return
+    api, _ = genrun.build_api(req)
+    svc = api.services[f"{PKG}.Library"]
+    loc = rpc.py_locations(api, svc)
+    codec = rpc.Codec([f])
+    kwm = svc.methods[cap(w)]
+    calls = [
+        {"tag": "rpc named by the keyword (request=)", "method": to_snake_case(kwm.client_method_name), "mode": "request-instance", "py_request": rpc.py_type(kwm.input),
+         "expect": (a.full, {"name": "things/t1", "kind": "B"}), "path": f"/{PKG}.Library/{cap(w)}", "header": "name=things/t1"},
+        {"tag": "rpc named by the keyword (flattened)", "method": to_snake_case(kwm.client_method_name), "mode": "kwargs", "py_request": rpc.py_type(kwm.input),
+         "kwargs": [["name", "name"]], "expect": (a.full, {"name": "things/t2"}), "path": f"/{PKG}.Library/{cap(w)}", "header": "name=things/t2"},
+        {"tag": "other rpc with types of the file (flattened enum)", "method": "other", "mode": "kwargs", "py_request": rpc.py_type(svc.methods["Other"].input),
+         "kwargs": [["name", "name"], ["kind", "kind"]], "expect": (b.full, {"name": "others/o1", "kind": "A"}), "path": f"/{PKG}.Library/Other", "header": "name=others/o1"},
+    ]
+    for c in calls:
+        c["request_b64"] = codec.encode_b64(*c["expect"])
+    clean = [{k: v for k, v in c.items() if k not in ("tag", "expect", "header", "path")} for c in calls]
+    root = genrun.materialise(res)
+    try:
+        out = libhost.run(root, [{"op": "import_all", "package": loc["package"]},
+                                 {"op": "grpc_session", "client": loc["client"], "transport": loc["grpc"], "async": False, "calls": clean},
+                                 {"op": "grpc_session", "client": loc["async_client"], "transport": loc["grpc_asyncio"], "async": True, "calls": clean}], timeout=300)
+    finally:
+        genrun.cleanup(root)
+    imp = out[0]
+    if "child_error" in imp or imp.get("errors"):
+        ctx.fail(K("rpc-and-file:import"), f"{label}: library does not import: {str(imp.get('errors') or imp)[:300]}", payload)
+        return
+    for kind_, sess in (("sync", out[1]), ("asyncio", out[2])):
+        if not check_grpc_calls(ctx, w, kind_, sess, calls, payload, codec):
+            return
 
 
 def check_bad_positions(ctx, w):
@@ -896,13 +993,27 @@ def check_bad_positions(ctx, w):
             ctx.fail(f"position:{pos}:{imp[0]}", f"word {w!r} as {pos}: library fails at {imp[0]}: {imp[1]}", payload)
 
 
-def check_module_collisions(ctx, shape):
+def alias_initials(package, version="v1"):
+    """the package-derived part of `Address.module_alias`: first character of every `_`-part of every package segment but the version"""
+    return "".join(part[0] for seg in package.split(".") if seg != version for part in seg.split("_") if part)
+
+
+SUBPACKAGE_PAIRS = (("shelf", "book"), ("admin", "billing"), ("admin", "audit"), ("big_query", "batch_queue"), ("big_query", "bigquery"))
+
+
+def check_module_collisions(ctx, shape, subs=("shelf", "book")):
     """two imported types modules share a base name (`common.proto` in two sub-packages): the library must import and each
-    field must be bound to ITS package's type. `shape`: which messages of the importing file use which module."""
-    f1 = apigen.File("acme/lib/v1/shelf/common.proto", PKG + ".shelf")
+    field must be bound to ITS package's type. `shape`: which messages of the importing file use which module.
+    `subs`: the two sub-packages; when their alias initials coincide (`admin`/`audit` -> `ala_common` twice) the failure is the known
+    finding `alias-collision:same-initials` (trigger decided here, from the input)."""
+    same_initials = alias_initials(f"{PKG}.{subs[0]}") == alias_initials(f"{PKG}.{subs[1]}")
+    f1 = apigen.File(f"acme/lib/v1/{subs[0]}/common.proto", f"{PKG}.{subs[0]}")
     o1 = f1.msg("Options"); o1.field("aisle", "string", 1)
-    f2 = apigen.File("acme/lib/v1/book/common.proto", PKG + ".book")
-    o2 = f2.msg("Options"); o2.field("pages", "int32", 1); o2.field("cover", "string", 2)
+    f2 = apigen.File(f"acme/lib/v1/{subs[1]}/common.proto", f"{PKG}.{subs[1]}")
+    # same message name in both modules (a wrong binding stays silent until a value is set) or, for the other pairs in the one-message
+    # shape, different names (a wrong binding is an AttributeError when the module is imported)
+    o2 = f2.msg("Settings" if (shape == "one-message" and tuple(subs) != ("shelf", "book")) else "Options")
+    o2.field("pages", "int32", 1); o2.field("cover", "string", 2)
     f = apigen.File("acme/lib/v1/lib.proto", PKG, deps=[f1.name, f2.name])
     thing = f.msg("Thing"); thing.field("name", "string", 1)
     gs = f.msg("GetShelfRequest"); gs.field("name", "string", 1)
@@ -919,12 +1030,14 @@ def check_module_collisions(ctx, shape):
     s.method("GetShelf", gs, thing, http=("get", "/v1/{name=shelves/*}"))
     s.method("GetBook", gb, thing, http=("get", "/v1/{name=books/*}"))
     files = [f1, f2, f]
-    payload = {"api": "module-collision", "shape": shape}
-    ctx.count("position", "colliding module names: " + shape)
+    payload = {"api": "module-collision", "shape": shape, "subs": list(subs)}
+    K = (lambda k: "alias-collision:same-initials" if k.split(":")[1] in ("import", "wrong-type-bound", "wire") else k) if same_initials else (lambda k: k)
+    shape_l = shape if tuple(subs) == ("shelf", "book") else f"{shape} in {subs[0]}/{subs[1]}"
+    ctx.count("position", "colliding module names: " + shape + ("" if tuple(subs) == ("shelf", "book") else " (sub-packages with %s alias initials)" % ("equal" if same_initials else "different")))
     req = apigen.request(files, "transport=grpc,autogen-snippets=false")
     res, err = genrun.try_generate(req)
     if err:
-        ctx.fail("module-collision:generation", f"{shape}: generator raised {err[0]}: {err[1]}", payload)
+        ctx.fail(K("module-collision:generation"), f"{shape_l}: generator raised {err[0]}: {err[1]}", payload)
         return
     api, _ = genrun.build_api(req)
     svc = api.services[f"{PKG}.Library"]
@@ -953,20 +1066,20 @@ def check_module_collisions(ctx, shape):
         genrun.cleanup(root)
     imp = out[0]
     if "child_error" in imp or imp.get("errors"):
-        ctx.fail("module-collision:import", f"{shape}: library does not import: {str(imp.get('errors') or imp)[:300]}", payload)
+        ctx.fail(K("module-collision:import"), f"{shape_l}: library does not import: {str(imp.get('errors') or imp)[:300]}", payload)
         return
     sess = out[1]
     if "calls" not in sess:
-        ctx.fail("module-collision:session", f"{shape}: session failed: {str(sess)[-300:]}", payload)
+        ctx.fail(K("module-collision:session"), f"{shape_l}: session failed: {str(sess)[-300:]}", payload)
         return
     for c, r_ in zip(calls, sess["calls"]):
         full, want = c["_expect"]
         if "ok" not in r_ or len(r_["server"]) != 1:
-            ctx.fail("module-collision:wrong-type-bound", f"{shape}: {c['method']} with {want}: {r_.get('raised')}: {r_.get('msg', '')[:200]}", payload)
+            ctx.fail(K("module-collision:wrong-type-bound"), f"{shape_l}: {c['method']} with {want}: {r_.get('raised')}: {r_.get('msg', '')[:200]}", payload)
             continue
         got = codec.decode(full, r_["server"][0]["requests"][0])
         if got != codec.normal(full, want):
-            ctx.fail("module-collision:wire", f"{shape}: {c['method']}: server decoded {got}, caller meant {want}", payload)
+            ctx.fail(K("module-collision:wire"), f"{shape_l}: {c['method']}: server decoded {got}, caller meant {want}", payload)
 
 
 def t2(ctx):
@@ -1078,6 +1191,8 @@ def run(ctx):
                 "word as flattened parameter, path variable, body field; flattened and request=, sync/asyncio gRPC and REST); "
                 "a types module named like a wrapper module the service code imports (operation, operation_async, pagers, extended_operation) x "
                 "{only LRO metadata there, everything there}: plain call, pager, LRO completed, sync/asyncio/REST; "
+                "rpc and proto file named by the same keyword; same-base-name modules in sub-package pairs with equal / different alias initials; "
+                "dependency files (proto-plus and _pb2) named by keywords / control parameters; "
                 "proto-plus dependency packages (`proto-plus-deps=`) whose module needs an alias {own module, other dependency (proto-plus / _pb2), reserved "
                 "word, flattened parameter, dependency type as request}: dependency and API libraries generated into one site directory, imported, called; "
                 "every REST request is read back whole (path variables + query + body under the input descriptor); quick samples words, thorough enumerates all; "
@@ -1124,9 +1239,27 @@ def run(ctx):
         for wd in (dict.fromkeys(["type", rp.pick(modwords)] if ctx.quick else modwords) if sc == "reserved-module" else ["type"]):
             check_ppdeps(ctx, sc, wd)
             ctx.case({"api": "proto-plus-deps", "scenario": sc, "word": wd}, distinct_key=["ppdeps", sc, wd])
+    check_ppdeps(ctx, "dep-subpackage")      # referenced types in a sub-package of the versioned dependency package (findings/C12.json)
+    ctx.case({"api": "proto-plus-deps", "scenario": "dep-subpackage", "word": "type"}, distinct_key=["ppdeps", "dep-subpackage"])
+    # ... and whose FILE is named by a keyword / control parameter (module `<word>_` in the dependency's own library), proto-plus and _pb2
+    for sc, first in (("keyword-dep-file", ["import", "request"]), ("keyword-pb2-file", ["metadata"])):
+        for wd in dict.fromkeys(first + [rp.pick(invalid)] if ctx.quick else invalid):
+            check_ppdeps(ctx, sc, wd)
+            ctx.case({"api": "proto-plus-deps", "scenario": sc, "word": wd}, distinct_key=["ppdeps", sc, wd])
     for shape in ("different-messages", "one-message", "nested"):
         check_module_collisions(ctx, shape)
         ctx.case({"api": "module-collision", "shape": shape}, distinct_key=["modcol", shape])
+    # an RPC and the proto file of its types named by the same keyword (method / transport property `import_` vs module `import_`)
+    kws = [x for x in kw if file_base_ok(x) and re.fullmatch(r"[a-z]+", x)]
+    for w in (dict.fromkeys(["import", r.pick(kws)]) if ctx.quick else kws):
+        for order in (("kw", "other"), ("other", "kw")):
+            check_rpc_and_file(ctx, w, order)
+            ctx.case({"api": "rpc-and-file", "word": w, "order": list(order)}, distinct_key=["rpcfile", w, order])
+    # the same with other pairs of sub-packages: different alias initials (must hold) and equal ones (findings/C12.json)
+    for subs in SUBPACKAGE_PAIRS[1:]:
+        for shape in (("one-message",) if ctx.quick else ("different-messages", "one-message", "nested")):
+            check_module_collisions(ctx, shape, subs)
+            ctx.case({"api": "module-collision", "shape": shape, "subs": list(subs)}, distinct_key=["modcol", shape, subs])
     for w in (["class", "import"] if ctx.quick else [x for x in ws if x in res]):
         check_bad_positions(ctx, w)
         ctx.case({"word": w, "api": "bad-positions"}, distinct_key=["bad", w])
@@ -1144,6 +1277,8 @@ def search(ctx):
             check_wrapper_collision(ctx, name, shape, "grpc+rest")
     for sc in PPDEPS_SCENARIOS:
         check_ppdeps(ctx, sc, "type")
+    for wd in ("import", "request", "class", "metadata"):
+        check_ppdeps(ctx, "keyword-dep-file", wd)
 
 
 def replay(ctx, payload):
@@ -1151,9 +1286,11 @@ def replay(ctx, payload):
     ctx.driver = leanio.Driver()
     w = payload.get("word", "class")
     if payload.get("api") == "module-collision":
-        check_module_collisions(ctx, payload.get("shape", "different-messages"))
+        check_module_collisions(ctx, payload.get("shape", "different-messages"), tuple(payload.get("subs") or ("shelf", "book")))
     elif payload.get("api") == "wrapper-module-collision":
         check_wrapper_collision(ctx, payload.get("module", "operation"), payload.get("shape", "metadata"), payload.get("transport", "grpc+rest"))
+    elif payload.get("api") == "rpc-and-file":
+        check_rpc_and_file(ctx, w, tuple(payload.get("order") or ("kw", "other")))
     elif payload.get("api") == "proto-plus-deps":
         check_ppdeps(ctx, payload.get("scenario", "own-module"), payload.get("word", "type"))
     elif payload.get("api") == "keyword-file":
@@ -1183,6 +1320,9 @@ CLAIM = dict(
          "generated: `extended_operation.proto` only as a file name); names bound by the templates (retries, logging, re, ...) are findings/C01.json; the import of an aliased module binds the name its references use (`Address.python_import` vs `Address.__str__`, all four "
          "branches incl. proto-plus dependencies): theorem + T2 (`c12.import`) + T3; alias of a keyword-named file's module "
          "against a flattened parameter of the same word: theorem + T2 (`c12.alias`) + T3. A module `class_` meeting the transport property of an "
-         "RPC `Class` stays excluded (DESIGN §16). Dotted http path variables with a "
+         "RPC `Class` is tested in an API of its own since round 9 (`check_rpc_and_file`; known finding rpc-name-equals-renamed-types-module:import). "
+         "Dependency FILES named by a keyword / control parameter: proto-plus dependency imports the module its library ships (theorem + T2 "
+         "`c12.depmodule` + T3), `_pb2` dependency does not (counterexample theorem; finding). Same-base-name modules in sub-packages with equal "
+         "alias initials share one alias (translated counterexample theorem; finding alias-collision:same-initials). Dotted http path variables with a "
          "reserved segment and reserved non-terminal flattened segments are wrong at HEAD (counterexample theorems; findings).",
 )
